@@ -18,7 +18,9 @@ groups = {
          'PaymentDetails_calculateAdvances','PaymentDetails_totalAdvance','Terms_CalculateDues','Advance_CalculateFrom',
          'CategoryTotal_PreciseAmount','Total_PreciseSum','Total_round','Totals_round'],
  'C04': ['Line_round','SubLine_round','LineDiscount_round','LineCharge_round','Discount_round','Charge_round','Totals_reset'],
- 'C17': ['Invoice_Invert','removeIncludedTaxes','Discount_removeIncludedTaxes','Charge_removeIncludedTaxes'],
+ 'C17': ['Invoice_Invert','removeIncludedTaxes','Discount_removeIncludedTaxes','Charge_removeIncludedTaxes',
+         'Invoice_RemoveIncludedTaxes','canRemoveIncludedTaxes','removeLineIncludedTaxes','removeSubLinesIncludedTaxes',
+         'removeLineDiscountsIncludedTaxes','removeLineChargesIncludedTaxes'],
 }
 BEGIN = '/-! ## pinned source shapes (regenerated facts; tools/pin_calc_expect.py) -/'
 for pid, fns in groups.items():
@@ -30,6 +32,9 @@ for pid, fns in groups.items():
             name = f'{kind}_{fn}'
             if name not in defs: sys.exit(f'missing fact {name}')
             block.append(f'theorem {name}_as_modelled : {name} =\n    {defs[name]} := rfl')
+    if pid == 'C17':  # integer constants copied by the models (extractor: const_<name>)
+        block.append('theorem const_defaultTaxRemovalAccuracy_as_modelled : const_defaultTaxRemovalAccuracy = toString removalAccuracy := by decide')
+        block.append('theorem const_linePrecisionExtra_as_modelled : const_linePrecisionExtra = toString E := by decide')
     block += ['', 'end ExpectCalc', '']
     text = '\n'.join(block)
     if BEGIN in s:
